@@ -464,4 +464,484 @@ theorem C19_tap1_concluded_invariant (c : Cfg) (d0 : Int) (s0 : St) (ins : List 
   exact run_inv c (ConcInv c) (fun s t i => step_concInv c s t i) ins s0 0 hinit
 
 end Tap1
+/-! ## 10. TAP003: run-level schedule, `actions_concluded` invariant, stops / restarts / progress-only-after-success -/
+namespace Tap3
+
+/-- The two response handlers that run before the guard touch neither the history nor the remembered timestep. -/
+theorem preGuard_hist (c : Cfg) (s : St) :
+    (preGuardHandlers c s).hist = s.hist ∧ (preGuardHandlers c s).curT = s.curT := by
+  have hl : ∀ s : St, (handleLogin s).hist = s.hist ∧ (handleLogin s).curT = s.curT := by
+    intro s; unfold handleLogin; repeat' split
+    all_goals simp [St.raise]
+  have hp : ∀ s : St, (handleChangePw c s).hist = s.hist ∧ (handleChangePw c s).curT = s.curT := by
+    intro s; unfold handleChangePw; repeat' split
+    all_goals simp
+  unfold preGuardHandlers
+  have a := hl s
+  have b := hp (handleLogin s)
+  exact ⟨by rw [b.1, a.1], by rw [b.2, a.2]⟩
+
+theorem executes_preGuard (c : Cfg) (s : St) (t : Int) : executes (preGuardHandlers c s) t = executes s t := by
+  have hp := preGuard_fields c s
+  simp only [executes, hp.2.2.1, hp.2.2.2]
+
+theorem getAction_idle (c : Cfg) (s : St) (t : Int) (i : In) (h : executes s t = false) :
+    getAction c s t i = (preGuardHandlers c s, Act.nothing) := by
+  unfold getAction getActionCore
+  rw [if_pos (by rw [executes_preGuard]; simp [h])]
+
+/-- TAP003 seen as a `SchedSys`. -/
+def sched (c : Cfg) : SchedSys St In where
+  step := fun s t i => (step c s t i).1
+  dead := (·.dead)
+  concluded := (·.concluded)
+  nextExec := (·.nextExec)
+  f := c.frequency
+  v := c.variance
+  ok := fun i => -c.variance ≤ i.d1 ∧ i.d1 ≤ c.variance
+
+theorem slot_iff (c : Cfg) (s : St) (t : Int) : (sched c).slot s t = (!s.dead && executes s t) := rfl
+
+theorem step_idle_fields (c : Cfg) (s : St) (t : Int) (i : In) (h : executes s t = false) :
+    (step c s t i).1.nextExec = s.nextExec ∧ (step c s t i).1.concluded = s.concluded := by
+  have hp := preGuard_fields c s
+  unfold step
+  split
+  · exact ⟨rfl, rfl⟩
+  · rw [getAction_idle c s t i h]
+    split
+    · exact ⟨rfl, rfl⟩
+    · exact ⟨hp.2.2.2, hp.2.2.1⟩
+
+theorem step_fire (c : Cfg) (s : St) (t : Int) (i : In) (hd : s.dead = false) (hex : executes s t = true)
+    (hv : 0 ≤ c.variance) :
+    (step c s t i).1.dead = true ∨ (step c s t i).1.nextExec = t + c.frequency + i.d1 := by
+  unfold step
+  rw [if_neg (by simp [hd])]
+  split
+  · exact Or.inl rfl
+  · rename_i herr
+    right
+    cases hh : pyIndex (preGuardHandlers c s).hist (preGuardHandlers c s).curT with
+    | none =>
+      exfalso; apply herr
+      have hex' : executes (preGuardHandlers c s) t = true := by rw [executes_preGuard]; exact hex
+      simp [getAction, getActionCore, hex', hh, St.raise]
+    | some h => exact C19_tap3_reschedules c s t i h hex hh hv
+
+theorem sched_law (c : Cfg) (hv : 0 ≤ c.variance) : (sched c).Law where
+  dead_stays := by
+    intro s t i hd
+    show (step c s t i).1.dead = true
+    have hd' : s.dead = true := hd
+    unfold step; rw [if_pos hd']; exact hd'
+  idle := by
+    intro s t i hd hs
+    have hex : executes s t = false := by
+      have := slot_iff c s t
+      rw [hs] at this
+      have hd' : s.dead = false := hd
+      simpa [hd'] using this.symm
+    exact step_idle_fields c s t i hex
+  fire := by
+    intro s t i hs hok
+    have h := slot_iff c s t
+    rw [hs] at h
+    have hd : s.dead = false := by
+      cases hdd : s.dead <;> simp [hdd] at h ⊢
+    have hex : executes s t = true := by simpa [hd] using h.symm
+    rcases step_fire c s t i hd hex hv with h1 | h1
+    · exact Or.inl h1
+    · exact Or.inr ⟨i.d1, hok.1, hok.2, h1⟩
+
+def DrawsIn (c : Cfg) (ins : List In) : Prop := ∀ i ∈ ins, (sched c).ok i
+
+/-- The execution slots of a TAP003 run. -/
+def slotTimes (c : Cfg) (s : St) (t : Int) (ins : List In) : List Int := (sched c).slots s t ins
+
+theorem acts_in_slots (c : Cfg) : ∀ (ins : List In) (s : St) (t : Int) (t' : Int) (a : Act),
+    (t', Out.act a) ∈ runOut c s t ins → a ≠ Act.nothing → t' ∈ slotTimes c s t ins := by
+  intro ins
+  induction ins with
+  | nil => intro s t t' a h; simp [runOut] at h
+  | cons i is ih =>
+    intro s t t' a hmem hne
+    simp only [runOut, List.mem_cons] at hmem
+    unfold slotTimes
+    simp only [SchedSys.slots]
+    rcases hmem with heq | hmem
+    · have ht : t' = t := (Prod.mk.inj heq).1
+      have h2 : (step c s t i).2 = Out.act a := (Prod.mk.inj heq).2.symm
+      have hs : (sched c).slot s t = true := by
+        rw [slot_iff]
+        cases hd : s.dead with
+        | true => simp [step, hd] at h2
+        | false =>
+          cases hex : executes s t with
+          | true => rfl
+          | false =>
+            rcases (step_idle c s t i hex).1 with ho | ho
+            · rw [ho] at h2; cases h2; exact absurd rfl hne
+            · rw [ho] at h2; cases h2
+      rw [if_pos hs, ht]
+      exact List.mem_cons_self
+    · have := ih _ (t + 1) t' a hmem hne
+      unfold slotTimes at this
+      split
+      · exact List.mem_cons_of_mem _ this
+      · exact this
+
+/-- **Run-level schedule of TAP003** (same statement as `C19_tap1_slot_gaps`): first slot = first timestep
+`≥ start_step + d0`; consecutive slots `max 1 (frequency + d1)` apart, gaps in `[max 1 (f − v), max 1 (f + v)]`; every
+action other than do-nothing is returned in a slot. -/
+theorem C19_tap3_slot_gaps (c : Cfg) (d0 : Int) (s0 : St) (ins : List In) (h0 : init c d0 = some s0)
+    (hins : DrawsIn c ins) :
+    (∀ x, (slotTimes c s0 0 ins).head? = some x → x = max 0 (c.startStep + d0)) ∧
+    GapsIn (max 1 (c.frequency - c.variance)) (max 1 (c.frequency + c.variance)) (slotTimes c s0 0 ins) ∧
+    (∀ x ∈ slotTimes c s0 0 ins, c.startStep + d0 ≤ x) ∧
+    (∀ t a, (t, Out.act a) ∈ runOut c s0 0 ins → a ≠ Act.nothing → t ∈ slotTimes c s0 0 ins) := by
+  have hs : s0.nextExec = c.startStep + d0 ∧ 0 ≤ c.variance ∧ s0.dead = false ∧ s0.concluded = false := by
+    unfold init at h0
+    split at h0
+    · rename_i hv; cases h0; exact ⟨rfl, by simpa [randintOk] using hv, rfl, rfl⟩
+    · cases h0
+  have hL := sched_law c hs.2.1
+  obtain ⟨h1, h2⟩ := (sched c).slots_spec hL ins s0 0 hins
+  refine ⟨?_, h2, ?_, fun t a => acts_in_slots c ins s0 0 t a⟩
+  · intro x hx; have := h1 x hx; rw [← hs.1]; exact this
+  · intro x hx
+    have := ((sched c).slots_ge hL ins s0 0 x hx).2 hs.2.2.1 hs.2.2.2
+    rw [← hs.1]; exact this
+
+/-- Non-vacuity: start 2, frequency 3, variance 1; draws +1 at step 2 and −1 at step 6 give slots 2, 6, 8, 11, 14. -/
+example :
+    let c : Cfg := { exCfg with startStep := 2, frequency := 3, variance := 1 }
+    ∃ s0, init c 0 = some s0 ∧
+      slotTimes c s0 0 ((List.range 16).map fun j =>
+        { exIn with d1 := if j = 2 then 1 else if j = 6 then -1 else 0 }) = [2, 6, 8, 11, 14] := by
+  refine ⟨_, rfl, ?_⟩
+  decide
+
+/-! ### `actions_concluded` is written by `_tap_outcome_handler` only -/
+
+@[simp] theorem con_failStage (c : Cfg) (s : St) : (failStage c s).concluded = s.concluded := by
+  unfold failStage; split <;> rfl
+@[simp] theorem con_progress (s : St) : (progress s).concluded = s.concluded := by
+  unfold progress; repeat' split
+  all_goals simp [St.raise]
+@[simp] theorem con_manipBegin (s : St) : (manipBegin s).concluded = s.concluded := by
+  unfold manipBegin; split <;> simp
+@[simp] theorem con_manipAct (c : Cfg) (s : St) : (manipAct c s).concluded = s.concluded := by
+  unfold manipAct; repeat' split
+  all_goals simp [St.raise]
+@[simp] theorem con_manipFinish (s : St) : (manipFinish s).concluded = s.concluded := by
+  unfold manipFinish; split <;> simp
+@[simp] theorem con_manipulation (c : Cfg) (i : In) (s : St) : (manipulation c i s).concluded = s.concluded := by
+  unfold manipulation; repeat' split
+  all_goals simp
+@[simp] theorem con_exploitAct (r : Nat) (s : St) : (exploitAct r s).concluded = s.concluded := by
+  unfold exploitAct; split <;> simp
+@[simp] theorem con_exploitFinish (s : St) : (exploitFinish s).concluded = s.concluded := by
+  unfold exploitFinish; split <;> simp
+@[simp] theorem con_exploit (c : Cfg) (s : St) : (exploit c s).concluded = s.concluded := by
+  unfold exploit; repeat' split
+  all_goals simp [St.raise]
+@[simp] theorem con_access (c : Cfg) (i : In) (s : St) : (access c i s).concluded = s.concluded := by
+  unfold access; repeat' split
+  all_goals simp
+@[simp] theorem con_planning (c : Cfg) (i : In) (s : St) : (planning c i s).concluded = s.concluded := by
+  unfold planning; repeat' split
+  all_goals simp
+@[simp] theorem con_reconnaissance (s : St) : (reconnaissance s).concluded = s.concluded := by
+  unfold reconnaissance; split <;> simp
+@[simp] theorem con_tapStart (s : St) : (tapStart s).concluded = s.concluded := by
+  unfold tapStart; repeat' split
+  all_goals simp [St.raise]
+@[simp] theorem con_bodies (c : Cfg) (i : In) (s : St) : (bodies c i s).concluded = s.concluded := by
+  simp [bodies]
+
+theorem con_setNext (c : Cfg) (s : St) (b d : Int) : (setNext c s b d).concluded = s.concluded :=
+  (setNext_fields c s b d).2.2
+
+theorem con_returnHandler (c : Cfg) (h : Hist) (s : St) : (returnHandler c h s).concluded = s.concluded := by
+  unfold returnHandler; split <;> rfl
+
+theorem outcome_concluded (c : Cfg) (s : St) (h : (outcomeHandler c s).concluded = true) :
+    s.concluded = true ∨ (c.repeatKillChain = false ∧ (s.cur = .succeeded ∨ s.cur = .failed) ∧
+      (outcomeHandler c s).cur = s.cur ∧ (outcomeHandler c s).chosen = Act.nothing) := by
+  by_cases ht : s.cur = .succeeded ∨ s.cur = .failed
+  · cases hc : s.concluded with
+    | true => exact Or.inl rfl
+    | false =>
+      cases hr : c.repeatKillChain with
+      | true => simp [outcomeHandler, ht, hc, hr] at h
+      | false => right; simp [outcomeHandler, ht, hc, hr]
+  · have : outcomeHandler c s = s := by simp [outcomeHandler, ht]
+    rw [this] at h; exact Or.inl h
+
+theorem core_concluded_only_at_end (c : Cfg) (s : St) (t : Int) (i : In) (h0 : s.concluded = false)
+    (h1 : (getActionCore c s t i).1.concluded = true) :
+    executes s t = true ∧ c.repeatKillChain = false ∧
+    ((getActionCore c s t i).1.cur = .succeeded ∨ (getActionCore c s t i).1.cur = .failed) ∧
+    (getActionCore c s t i).2 = Act.nothing := by
+  unfold getActionCore at h1 ⊢
+  split at h1
+  · rw [h0] at h1; cases h1
+  · rename_i hex
+    rw [if_neg hex]
+    refine ⟨by simpa using hex, ?_⟩
+    split at h1
+    · simp [St.raise, h0] at h1
+    · rename_i h hh
+      have hr0 : (returnHandler c h s).concluded = false := by rw [con_returnHandler]; exact h0
+      generalize returnHandler c h s = s1 at h1 hr0 ⊢
+      split at h1
+      · rename_i hp
+        rw [if_pos hp]
+        unfold mainPath at h1 ⊢
+        rw [con_bodies] at h1
+        generalize hs2 : setNext c { reasonCheck h s1 with curT := t } (t + c.frequency) i.d1 = s2 at h1 ⊢
+        have h2 : s2.concluded = false := by
+          subst hs2; rw [con_setNext]; simp only []; rw [(reasonCheck_fields h s1).2.2]; exact hr0
+        rcases outcome_concluded c s2 h1 with hc | ⟨hrep, hterm, hcur, hch⟩
+        · rw [h2] at hc; cases hc
+        · have hterm' : (outcomeHandler c s2).cur = .succeeded ∨ (outcomeHandler c s2).cur = .failed := by
+            rw [hcur]; exact hterm
+          rw [bodies_terminal c i _ hterm']
+          exact ⟨hrep, hterm', hch⟩
+      · rename_i hp
+        rw [if_neg hp]
+        unfold failPath at h1 ⊢
+        generalize hs2 : setNext c { s1 with curT := t } (t + c.frequency) i.d1 = s2 at h1 ⊢
+        have h2 : s2.concluded = false := by subst hs2; rw [con_setNext]; exact hr0
+        rcases outcome_concluded c s2 h1 with hc | ⟨hrep, hterm, hcur, hch⟩
+        · rw [h2] at hc; cases hc
+        · exact ⟨hrep, by simp only []; rw [hcur]; exact hterm, hch⟩
+
+/-- **`actions_concluded` is set nowhere else** (one call of `TAP003.get_action`). -/
+theorem C19_tap3_concluded_only_at_end (c : Cfg) (s : St) (t : Int) (i : In) (h0 : s.concluded = false)
+    (h1 : (getAction c s t i).1.concluded = true) :
+    executes s t = true ∧ c.repeatKillChain = false ∧
+    ((getAction c s t i).1.cur = .succeeded ∨ (getAction c s t i).1.cur = .failed) ∧
+    (getAction c s t i).2 = Act.nothing := by
+  have hp := preGuard_fields c s
+  unfold getAction at h1 ⊢
+  have := core_concluded_only_at_end c (preGuardHandlers c s) t i (by rw [hp.2.2.1]; exact h0) h1
+  rw [executes_preGuard] at this
+  exact this
+
+def ConcInv (c : Cfg) (s : St) : Prop :=
+  s.concluded = true → c.repeatKillChain = false ∧ (s.cur = .succeeded ∨ s.cur = .failed)
+
+theorem step_concInv (c : Cfg) (s : St) (t : Int) (i : In) (h : ConcInv c s) : ConcInv c (step c s t i).1 := by
+  unfold step
+  split
+  · exact h
+  · split
+    · exact h
+    · intro hc
+      simp only [] at hc ⊢
+      cases h0 : s.concluded with
+      | true =>
+        have := C19_tap3_concluded_absorbing c s t i h0
+        rw [this.2.1]
+        exact h h0
+      | false =>
+        have := C19_tap3_concluded_only_at_end c s t i h0 hc
+        exact ⟨this.2.1, this.2.2.1⟩
+
+theorem run_inv (c : Cfg) (P : St → Prop) (hstep : ∀ s t i, P s → P (step c s t i).1) :
+    ∀ (ins : List In) (s : St) (t : Int), P s → ∀ s' ∈ run c s t ins, P s' := by
+  intro ins
+  induction ins with
+  | nil => intro s t _ s' h; simp [run] at h
+  | cons i is ih =>
+    intro s t hp s' hs'
+    simp only [run, List.mem_cons] at hs'
+    rcases hs' with rfl | hs'
+    · exact hstep s t i hp
+    · exact ih _ (t + 1) (hstep s t i hp) s' hs'
+
+/-- **`actions_concluded` as a run invariant** (TAP003). -/
+theorem C19_tap3_concluded_invariant (c : Cfg) (d0 : Int) (s0 : St) (ins : List In) (h0 : init c d0 = some s0) :
+    ∀ s ∈ run c s0 0 ins, s.concluded = true → c.repeatKillChain = false ∧ (s.cur = .succeeded ∨ s.cur = .failed) := by
+  have hinit : ConcInv c s0 := by
+    unfold init at h0
+    split at h0
+    · cases h0; intro h; cases h
+    · cases h0
+  exact run_inv c (ConcInv c) (fun s t i => step_concInv c s t i) ins s0 0 hinit
+
+/-! ### ends per settings: stop / restart (ports of the TAP001 theorems) -/
+
+theorem bodies_of_notStarted (c : Cfg) (i : In) (s : St) (h : s.cur = .notStarted) : bodies c i s = tapStart s := by
+  rw [bodies_eq, applyDown_reach c i s 5 (by rw [h]; simp [rank]), h]
+  rfl
+
+theorem tapStart_concluded (s : St) : (tapStart s).concluded = s.concluded := con_tapStart s
+
+theorem core_terminal_prefix (c : Cfg) (s : St) (h : Hist) (hterm : s.cur = .succeeded ∨ s.cur = .failed)
+    (hcon : s.concluded = false) :
+    ((returnHandler c h s).cur = .succeeded ∨ (returnHandler c h s).cur = .failed) ∧
+      (returnHandler c h s).concluded = false := by
+  unfold returnHandler; split
+  · exact ⟨Or.inr rfl, hcon⟩
+  · exact ⟨hterm, hcon⟩
+
+theorem core_stops (c : Cfg) (s : St) (t : Int) (i : In) (h : Hist)
+    (hrep : c.repeatKillChain = false) (hterm : s.cur = .succeeded ∨ s.cur = .failed)
+    (hex : executes s t = true) (hh : pyIndex s.hist s.curT = some h) :
+    (getActionCore c s t i).1.concluded = true ∧
+    ((getActionCore c s t i).1.cur = .succeeded ∨ (getActionCore c s t i).1.cur = .failed) ∧
+    (getActionCore c s t i).2 = Act.nothing := by
+  have hcon : s.concluded = false := by simp [executes] at hex; exact hex.2
+  have h1 := core_terminal_prefix c s h hterm hcon
+  unfold getActionCore
+  rw [if_neg (by simp [hex])]
+  simp only [hh]
+  generalize returnHandler c h s = s1 at h1 ⊢
+  have key : ∀ (b d : Int) (s' : St), (s'.cur = .succeeded ∨ s'.cur = .failed) → s'.concluded = false →
+      (outcomeHandler c (setNext c s' b d)).concluded = true ∧
+      ((outcomeHandler c (setNext c s' b d)).cur = .succeeded ∨ (outcomeHandler c (setNext c s' b d)).cur = .failed) ∧
+      (outcomeHandler c (setNext c s' b d)).chosen = Act.nothing := by
+    intro b d s' ht hc
+    have hf := setNext_fields c s' b d
+    have ht' : (setNext c s' b d).cur = .succeeded ∨ (setNext c s' b d).cur = .failed := by rw [hf.1]; exact ht
+    have := (outcome_terminal c _ ht' (by rw [hf.2.2]; exact hc)).2 hrep
+    refine ⟨this.2.2, by rw [this.1]; exact ht', ?_⟩
+    unfold outcomeHandler
+    rw [if_pos ht']
+    simp [hf.2.2, hc, hrep]
+  split
+  · unfold mainPath
+    have hr := reasonCheck_fields h s1
+    have hk := key (t + c.frequency) i.d1 { reasonCheck h s1 with curT := t } (by simp only []; rw [hr.1]; exact h1.1)
+      (by simp only []; rw [hr.2.2]; exact h1.2)
+    rw [bodies_terminal c i _ hk.2.1]
+    exact hk
+  · unfold failPath
+    exact key (t + c.frequency) i.d1 { s1 with curT := t } h1.1 h1.2
+
+/-- **ends_per_settings (stop)** for TAP003. Without `repeat_kill_chain`, the first execution slot that finds the chain
+SUCCEEDED or FAILED sets `actions_concluded`, keeps the stage, and returns do-nothing. -/
+theorem C19_tap3_stops (c : Cfg) (s : St) (t : Int) (i : In) (h : Hist)
+    (hrep : c.repeatKillChain = false) (hterm : s.cur = .succeeded ∨ s.cur = .failed)
+    (hex : executes s t = true) (hh : pyIndex s.hist s.curT = some h) :
+    (getAction c s t i).1.concluded = true ∧
+    ((getAction c s t i).1.cur = .succeeded ∨ (getAction c s t i).1.cur = .failed) ∧
+    (getAction c s t i).2 = Act.nothing := by
+  have hp := preGuard_fields c s
+  have hq := preGuard_hist c s
+  unfold getAction
+  exact core_stops c (preGuardHandlers c s) t i h hrep (by rw [hp.1]; exact hterm)
+    (by rw [executes_preGuard]; exact hex) (by rw [hq.1, hq.2]; exact hh)
+
+theorem core_restarts (c : Cfg) (s : St) (t : Int) (i : In) (h : Hist)
+    (hrep : c.repeatKillChain = true) (hterm : s.cur = .succeeded ∨ s.cur = .failed)
+    (hex : executes s t = true) (hh : pyIndex s.hist s.curT = some h) :
+    (getActionCore c s t i).1.concluded = false ∧
+    ((getActionCore c s t i).1.cur = .notStarted ∨ (getActionCore c s t i).1.cur = .reconnaissance) := by
+  have hcon : s.concluded = false := by simp [executes] at hex; exact hex.2
+  have h1 := core_terminal_prefix c s h hterm hcon
+  unfold getActionCore
+  rw [if_neg (by simp [hex])]
+  simp only [hh]
+  generalize returnHandler c h s = s1 at h1 ⊢
+  have key : ∀ (b d : Int) (s' : St), (s'.cur = .succeeded ∨ s'.cur = .failed) → s'.concluded = false →
+      (outcomeHandler c (setNext c s' b d)).concluded = false ∧
+      (outcomeHandler c (setNext c s' b d)).cur = .notStarted := by
+    intro b d s' ht hc
+    have hf := setNext_fields c s' b d
+    have ht' : (setNext c s' b d).cur = .succeeded ∨ (setNext c s' b d).cur = .failed := by rw [hf.1]; exact ht
+    have := (outcome_terminal c _ ht' (by rw [hf.2.2]; exact hc)).1 hrep
+    exact ⟨this.2.2, this.1⟩
+  split
+  · unfold mainPath
+    have hr := reasonCheck_fields h s1
+    have hk := key (t + c.frequency) i.d1 { reasonCheck h s1 with curT := t } (by simp only []; rw [hr.1]; exact h1.1)
+      (by simp only []; rw [hr.2.2]; exact h1.2)
+    rw [bodies_of_notStarted c i _ hk.2]
+    exact ⟨by rw [tapStart_concluded]; exact hk.1, Or.inr (tapStart_fire _ hk.2).1⟩
+  · unfold failPath
+    have hk := key (t + c.frequency) i.d1 { s1 with curT := t } h1.1 h1.2
+    exact ⟨hk.1, Or.inl hk.2⟩
+
+/-- **ends_per_settings (restart)** for TAP003. With `repeat_kill_chain`, the first execution slot that finds the chain
+SUCCEEDED or FAILED puts the agent back to NOT_STARTED (on the main path straight into RECONNAISSANCE) and never sets
+`actions_concluded`. -/
+theorem C19_tap3_restarts (c : Cfg) (s : St) (t : Int) (i : In) (h : Hist)
+    (hrep : c.repeatKillChain = true) (hterm : s.cur = .succeeded ∨ s.cur = .failed)
+    (hex : executes s t = true) (hh : pyIndex s.hist s.curT = some h) :
+    (getAction c s t i).1.concluded = false ∧
+    ((getAction c s t i).1.cur = .notStarted ∨ (getAction c s t i).1.cur = .reconnaissance) := by
+  have hp := preGuard_fields c s
+  have hq := preGuard_hist c s
+  unfold getAction
+  exact core_restarts c (preGuardHandlers c s) t i h hrep (by rw [hp.1]; exact hterm)
+    (by rw [executes_preGuard]; exact hex) (by rw [hq.1, hq.2]; exact hh)
+
+/-! ### progress only after success -/
+
+theorem succ_ne_failed (x : Stage) (h : x.chain = true) : x.succ ≠ .failed := by
+  cases x <;> simp [Stage.succ, Stage.chain] at h ⊢
+theorem succ_ne_notStarted (x : Stage) (h : x.chain = true) : x.succ ≠ .notStarted := by
+  cases x <;> simp [Stage.succ, Stage.chain] at h ⊢
+
+theorem core_progress_only_after_success (c : Cfg) (s : St) (t : Int) (i : In)
+    (hch : s.cur.chain = true) (hadv : (getActionCore c s t i).1.cur = s.cur.succ) :
+    executes s t = true ∧ ∃ h, pyIndex s.hist s.curT = some h ∧ (h.resp.ok = true ∨ s.cur = .planning) := by
+  have hne : s.cur.succ ≠ s.cur := by cases hc : s.cur <;> simp_all [Stage.succ, Stage.chain]
+  unfold getActionCore at hadv
+  split at hadv
+  · exact absurd hadv.symm hne
+  · rename_i hex
+    refine ⟨by simpa using hex, ?_⟩
+    split at hadv
+    · exact absurd hadv.symm hne
+    · rename_i h hh
+      refine ⟨h, hh, ?_⟩
+      split at hadv
+      · rename_i hp
+        have hf : s.cur ≠ .failed := by intro hf; rw [hf] at hch; simp [Stage.chain] at hch
+        rw [passes_returnHandler c h s hp hf] at hp
+        simp only [passes, Bool.or_eq_true, beq_iff_eq] at hp
+        exact hp
+      · exfalso
+        have hsoft := returnHandler_soft c h s
+        generalize returnHandler c h s = s1 at hsoft hadv
+        unfold failPath at hadv
+        have hf1 := setNext_fields c { s1 with curT := t } (t + c.frequency) i.d1
+        have ho : (outcomeHandler c (setNext c { s1 with curT := t } (t + c.frequency) i.d1)).cur = s1.cur ∨
+            (outcomeHandler c (setNext c { s1 with curT := t } (t + c.frequency) i.d1)).cur = .notStarted := by
+          unfold outcomeHandler
+          split
+          · split
+            · exact Or.inl hf1.1
+            · split
+              · exact Or.inr rfl
+              · exact Or.inl hf1.1
+          · exact Or.inl hf1.1
+        simp only at hadv
+        rcases ho with ho | ho
+        · rw [ho] at hadv
+          rcases hsoft.1 with h1 | h1
+          · rw [h1] at hadv; exact hne hadv.symm
+          · rw [h1] at hadv; exact succ_ne_failed s.cur hch hadv.symm
+        · rw [ho] at hadv; exact succ_ne_notStarted s.cur hch hadv.symm
+
+/-- **progress_only_after_success** (TAP003). The stage advances to its successor only in an execution slot whose
+look-back response (`history[current_timestep]`) was a success — except in PLANNING, which `get_action` lets through
+after a failed response (the "already installed" exception, as coded: it applies to *any* failure in PLANNING). -/
+theorem C19_tap3_progress_only_after_success (c : Cfg) (s : St) (t : Int) (i : In)
+    (hch : s.cur.chain = true) (hadv : (getAction c s t i).1.cur = s.cur.succ) :
+    executes s t = true ∧ ∃ h, pyIndex s.hist s.curT = some h ∧ (h.resp.ok = true ∨ s.cur = .planning) := by
+  have hp := preGuard_fields c s
+  have hq := preGuard_hist c s
+  unfold getAction at hadv
+  have := core_progress_only_after_success c (preGuardHandlers c s) t i (by rw [hp.1]; exact hch)
+    (by rw [hp.1]; exact hadv)
+  rw [executes_preGuard, hq.1, hq.2, hp.1] at this
+  exact this
+
+end Tap3
 end Primaite.Agents
